@@ -36,7 +36,16 @@ def pearson2(x, y):
         return 1.0, True
     scale = float(np.max(np.abs(y))) ** 2 * len(y)
     well = float(syy) > 1e-6 * scale and float(sxx) > 0
+    # float64 centring error of np.corrcoef: the mean of x carries an absolute error ~eps*|x|max, which perturbs
+    # r^2 by ~(eps*|x|max/std(x))^2 relative (matters for large-origin x such as time stamps)
+    if float(sxx) > 0:
+        c = (EPS * float(np.max(np.abs(x))) / float(np.sqrt(sxx / len(x)))) ** 2 \
+            + (EPS * float(np.max(np.abs(y))) / float(np.sqrt(syy / len(y)))) ** 2
+        COND[0] = max(COND[0], c)
     return float(np.sum(dx * dy) ** 2 / (sxx * syy)), well
+
+
+COND = [0.0]
 
 
 def score_model(pts, cluster, mode):
@@ -115,10 +124,11 @@ def setup(ctx, mods):
                 ctx.check(scores[pick_] >= best - 1e-12 * abs(best) - 1e-300, 'best-ranked', f'filter:not-best:{mode}',
                           f'cluster {m.tolist()} keeps {chosen[c][0]} with score {float(scores[pick_])!r}; member {int(m[int(np.argmax(scores))])} scores {best!r}',
                           linkage=link, t=t, scores=scores)
+                COND[0] = 0.0
                 model, well = score_model(pts, m, mode)
-                if well and np.all(np.isfinite(model)):
+                if well and COND[0] < 1e-7 and np.all(np.isfinite(model)):
                     err = float(np.max(np.abs(model - scores)))
-                    tol = 1e-9 * float(np.max(np.abs(model))) + 64 * EPS
+                    tol = (1e-9 + 64 * COND[0]) * float(np.max(np.abs(model))) + 64 * EPS
                     ctx.mx('score_err_over_tol', err / tol)
                     ctx.check(err <= tol, 'score-model', f'ranking:model:{mode}',
                               f'smooth_ranking({mode}) on cluster {m.tolist()} gives {scores.tolist()}, fit x weight model gives {model.tolist()}',
